@@ -64,9 +64,16 @@ class Stack:
         self.clients = []
         self.raw = []
         self._wrap_router()
+        classes = {}
         for spec in device_specs:
             ea = extra_attrs(spec) if extra_attrs else None
-            self.drivers[spec["name"]] = G.instantiate(spec, self.router, ea)
+            cls = classes.get(spec.get("class_of"))
+            if cls is None:
+                cls = G.build_class(spec, ea)
+                classes[spec["name"]] = cls
+            else:
+                sim.probe("two_instances_of_one_driver_class")
+            self.drivers[spec["name"]] = G.instantiate(spec, self.router, ea, cls=cls)
         self.server = server_tcp.TCP(self.router, port=PORT)
         self.server_task = sim.spawn(self.server.start())
         self.tty = None
